@@ -12,6 +12,25 @@ namespace
 using namespace vx;
 using namespace wm;
 
+// what one crate / track handle answers (the same text is produced through a retained handle before closing and through a lookup by id after reopening)
+std::string crate_text(const dj::crate& c)
+{
+    std::string s = "name=" + c.name() + " parent=";
+    auto p = c.parent();
+    s += p ? std::to_string(p->id()) : std::string("-");
+    s += " tracks=";
+    std::vector<int64_t> ids;
+    for (auto& t : c.tracks()) ids.push_back(t.id());
+    std::sort(ids.begin(), ids.end());
+    for (auto i : ids) s += std::to_string(i) + ",";
+    return s;
+}
+std::string track_text(const dj::track& t)
+{
+    auto title = t.title();
+    auto rating = t.rating();
+    return "title()=" + (title ? *title : std::string("<none>")) + " rating()=" + (rating ? std::to_string(*rating) : std::string("<none>")) + "\n" + snapshot_str(t.snapshot());
+}
 std::string first_diff(const std::string& a, const std::string& b)
 {
     auto la = split(a, '\n'), lb = split(b, '\n');
@@ -51,6 +70,7 @@ struct Dom : CompositeBase
         const std::string last = hist.empty() ? "empty" : hist.back().f;
         auto viol = [&](const std::string& inv, const std::string& what) { a.violation(fam + "|" + inv, "[" + schema_name(sch) + "] " + what, cid); };
         std::string o1, o1_tail, o2, mem_obs;
+        std::map<int64_t, std::string> held_c, held_t;  // what the retained handles answer just before closing
         bool ok = true;
         try
         {
@@ -91,6 +111,25 @@ struct Dom : CompositeBase
                     for (auto& c : wd.db.crates()) (void)wd.guarded([&] { c.set_parent(c); });
                 }
                 (void)wd.guarded([&] { wd.db.create_root_crate("written after failed calls"); });
+                // Cross-handle tail: every entity is read through the handle the history kept, changed through a second handle obtained by
+                // id, and read again through the first. What a retained handle answers before closing is observable too (a handle that
+                // remembers what it read once would answer differently from the library after reopening).
+                for (auto& c : wd.crates) (void)wd.guarded([&] { if (c.is_valid()) { (void)c.name(); (void)c.parent(); (void)c.tracks(); } });
+                for (auto& t : wd.tracks) (void)wd.guarded([&] { if (t.is_valid()) { (void)t.title(); (void)t.rating(); (void)t.snapshot(); } });
+                for (auto& c : wd.crates)
+                    (void)wd.guarded([&] {
+                        if (!c.is_valid()) return;
+                        auto other = wd.db.crate_by_id(c.id());
+                        if (other) other->set_name(c.name() + " (2nd handle)");
+                    });
+                for (auto& t : wd.tracks)
+                    (void)wd.guarded([&] {
+                        if (!t.is_valid()) return;
+                        auto other = wd.db.track_by_id(t.id());
+                        if (other) { other->set_title(std::string("via second handle")); other->set_rating(40); }
+                    });
+                for (auto& c : wd.crates) (void)wd.guarded([&] { if (c.is_valid()) held_c[c.id()] = crate_text(c); });
+                for (auto& t : wd.tracks) (void)wd.guarded([&] { if (t.is_valid()) held_t[t.id()] = track_text(t); });
                 o1_tail = observe(wd, true, false);
             }  // every handle released here
             if (!seam::opened_handles().empty() && false) {}
@@ -110,6 +149,22 @@ struct Dom : CompositeBase
                 if (wl.loaded_schema != sch) viol("loaded_schema", "load_database reported schema " + (wl.loaded_schema == eng::engine_schema::schema_3_0_0 ? std::string("(not set)") : schema_name(wl.loaded_schema)) + " for a library created as " + schema_name(sch));
             }
             if (o1_tail != o2) { ok = false; viol("observation_changed_by_reopen", first_diff(o1_tail, o2)); }
+            {
+                World wl(sch, dir, 1);
+                for (auto& kv : held_c)
+                {
+                    auto c = wl.db.crate_by_id(kv.first);
+                    std::string now = c ? crate_text(*c) : std::string("(no such crate)");
+                    if (now != kv.second) { ok = false; viol("retained_crate_handle_differs_from_reopened", "crate " + std::to_string(kv.first) + " through the handle kept since its creation: " + trunc(kv.second, 120) + "; after reopening: " + trunc(now, 120)); }
+                }
+                for (auto& kv : held_t)
+                {
+                    auto t = wl.db.track_by_id(kv.first);
+                    std::string now = t ? track_text(*t) : std::string("(no such track)");
+                    if (now != kv.second) { ok = false; viol("retained_track_handle_differs_from_reopened", "track " + std::to_string(kv.first) + " through the handle kept since its creation: " + trunc(first_diff(kv.second, now), 200)); }
+                }
+                a.count("retained_handles_compared", (long long)(held_c.size() + held_t.size()));
+            }
             // create_or_load on an existing library loads it, whatever schema is asked for
             for (int other = 0; other < 2; ++other)
             {
@@ -201,7 +256,7 @@ int run(const Options& o)
         "state up to the depth bound. For EACH distinct state its history is replayed on an on-disk library created with create_database(dir, schema) in a tmpfs scratch directory; the full "
         "public-API observation (every getter and snapshot of every track, every crate query, uuid, version name) is taken; then calls that throw inside the library (slot index 8 / -1, rename to a "
         "sibling's name, self-parent) and one more successful write follow, and the observation is taken again; all handles are released, load_database(dir, loaded) is called and "
-        "the observation repeated: both must be identical, `loaded` must be the creating schema, the on-disk observation must equal the in-memory one for the same history, database_exists must "
+        "the observation repeated: both must be identical (before closing every entity is also changed through a second handle obtained by id, and what the handle kept since its creation answers then must equal what a lookup by id answers after reopening), `loaded` must be the creating schema, the on-disk observation must equal the in-memory one for the same history, database_exists must "
         "be true, create_or_load_database must report created = false (also when a schema of the other generation is requested) and leave the library unchanged, and on an empty directory "
         "created = true. Non-trivial = distinct observations.";
     c["exhaustive"] = exhaustive;
